@@ -3204,7 +3204,8 @@ def _get_serializer(
             namespaces=namespaces,
         )
 
-    if format_options.indentation and not format_options.indentation.isspace():
+    if format_options.indentation.strip(" \t\r\n"):
+        # only XML's whitespace can be put within tags and is dropped again by parsers
         raise ValueError("Invalid indentation characters.")
 
     if format_options.width:
